@@ -69,3 +69,36 @@ Proof.
     split; [unfold nodupB; cbn; repeat constructor; cbn; intuition discriminate|].
     split; [cbn; repeat split; lia|]. repeat split; vm_compute; reflexivity.
 Qed.
+
+From NA Require Import Cisco.IosAclEquiv Cisco.IosAclFinal.
+
+(* The ACL core of C02 in full, for EVERY edit script (all block structures, remarks,
+   log variants, moves in both directions, any number of insert ranges): if no line
+   occurs twice in the device ACL nor in the target ACL and every inserted run has fewer
+   than 10000 lines, then all numbered commands are accepted and the rules of the ACL the
+   device then holds (remarks and log attributes dropped) differ from the rules of the
+   target only by exchanges of neighbouring rules with the same action — "entries inside
+   a run of consecutive rules with the same action may be in any order". *)
+Theorem C02_ios_acl_equiv :
+  forall m cs, nodupA m -> nodupB m -> short_runs m 0 -> diff_ios m = Some cs ->
+  exists l', iexec_all (reseq (listA m)) cs = Some l' /\ sw_equiv (rules (listB m)) (rules (map snd l')).
+Proof. exact ios_acl_equiv. Qed.
+Print Assumptions C02_ios_acl_equiv.
+
+(* such ACLs filter alike: whatever the lines match, the first matching rule has the same action *)
+Theorem C02_sw_equiv_same_filtering :
+  forall (matches : ientry -> bool) a b, sw_equiv a b -> fm_verdict matches a = fm_verdict matches b.
+Proof. exact sw_equiv_verdict. Qed.
+Print Assumptions C02_sw_equiv_same_filtering.
+
+Theorem C02_ios_acl_same_verdicts :
+  forall m cs (matches : ientry -> bool), nodupA m -> nodupB m -> short_runs m 0 -> diff_ios m = Some cs ->
+  exists l', iexec_all (reseq (listA m)) cs = Some l' /\
+             fm_verdict matches (rules (map snd l')) = fm_verdict matches (rules (listB m)).
+Proof. exact ios_acl_same_verdicts. Qed.
+Print Assumptions C02_ios_acl_same_verdicts.
+
+(* the relation is not trivial: a permit and a deny that may both match are never exchanged *)
+Example C02_sw_equiv_distinguishes :
+  fm_verdict (fun _ => true) [P 1; D 2] <> fm_verdict (fun _ => true) [D 2; P 1].
+Proof. cbn. discriminate. Qed.
